@@ -393,8 +393,8 @@ func (s *S) Run(choose Chooser, maxPreempt int, onStep func(Step)) Result {
 			onStep(st)
 		}
 	}
+	s.settle()
 	for {
-		s.settle()
 		// wake reports
 		s.mu.Lock()
 		var woke []Step
@@ -444,6 +444,7 @@ func (s *S) Run(choose Chooser, maxPreempt int, onStep func(Step)) Result {
 					return res
 				}
 				s.waitEvent(timer, time.Millisecond)
+				s.settle()
 				continue
 			}
 			if anyLock {
@@ -478,6 +479,7 @@ func (s *S) Run(choose Chooser, maxPreempt int, onStep func(Step)) Result {
 			if c == -2 && retries < 400 { // replay: the wanted thread is not eligible yet
 				retries++
 				s.waitEvent(timer, 50*time.Microsecond)
+				s.settle()
 				continue
 			}
 			retries = 0
@@ -501,6 +503,8 @@ func (s *S) Run(choose Chooser, maxPreempt int, onStep func(Step)) Result {
 		granted++
 		t.grant <- struct{}{}
 		s.await(t, timer)
+		// quiescence before the step is observed: threads woken by this step run to their next yield
+		s.settle()
 		s.mu.Lock()
 		switch t.st {
 		case stDone:
